@@ -13,10 +13,12 @@ import (
 )
 
 // C05, a narrow corner: only the send direction of the client's transport fails (its reads stay pending, as with a
-// write deadline or a peer that shut down its receive half). The library does not promise to notice that anywhere
-// but in the call that writes - so that is all that is demanded here: the call whose write failed returns an error
-// instead of waiting for an answer that cannot come. The failure's error value is drawn, including one that wraps
-// io.EOF (which the stream layer also uses as its own "send side closed" signal).
+// write deadline or a peer that shut down its receive half). The statement speaks of a failure "at any read or
+// write": the call whose write failed returns an error instead of waiting for an answer that cannot come, every later
+// call - also a receive on the stream whose send failed - returns an error instead of hanging, and the connection
+// reports itself closed. (The first version of this check only judged the failing call, on the assumption that the
+// library promises no more; the statement does. That gap was F30.) The failure's error value is drawn, including one
+// that wraps io.EOF (which the stream layer also uses as its own "send side closed" signal).
 
 type c05wCase struct {
 	Cfg     sim.Config
@@ -101,17 +103,31 @@ func runC05Write(c c05wCase) (r pbt.Result) {
 		fail("a call whose write failed is still waiting instead of returning an error")
 		return
 	}
-	// and the connection is not left busy by it: a further call also ends (with the same failure), it does not queue up
-	// behind the failed one
-	if !c.Unary && w.Stream(k) != nil {
-		// NewStream itself succeeded (its invoke was only buffered); the failed call is a send on a stream the
-		// application still holds open, so the connection is legitimately busy
-		r.Label(fmt.Sprintf("errkind_%d", c.ErrKind))
-		r.Label("stream_send_failed")
-		r.NonTrivial = true
-		r.Key = fmt.Sprintf("%+v", c)
+	if !w.Closed() {
+		fail("a transport write failed, the failing call has returned, and the connection does not report itself closed")
 		return
 	}
+	if !c.Unary && w.Stream(k) != nil {
+		// NewStream itself succeeded (its invoke was only buffered); the failed call is a send on a stream the
+		// application still holds open. A receive on it cannot be answered (nothing was sent): it must fail.
+		w.GoCall("x", "recv-after", k, func() error {
+			var b []byte
+			return w.Stream(k).MsgRecv(&b, w.Enc)
+		})
+		w.Flush(sim.Filter{Coarse: true})
+		if !w.Done("x") {
+			fail("a receive on the stream whose send failed waits for an answer that cannot come")
+			return
+		}
+		for _, op := range w.OpsSnapshot() {
+			if op.Op == "recv-after" && op.Err == nil {
+				fail("a receive on the stream whose send failed returned a message")
+				return
+			}
+		}
+		r.Label("stream_send_failed")
+	}
+	// a further call also ends (with an error), it does not queue up behind the failed one
 	w.GoCall("next", "invoke-after", -1, func() error {
 		in, out := sim.MakePayload(0xffff00, 'p', 0, 1), []byte(nil)
 		return w.Conn.Invoke(context.Background(), "probe-after", w.Enc, &in, &out)
